@@ -88,6 +88,16 @@ var c10Dribbles = func() []struct {
 			out = append(out, d{h.name, h.head, 120, per})
 		}
 	}
+	// a value announcing four million bytes (32-bit length) behind a valid format, then one byte per packet: the
+	// bytes to read are known before they are there
+	for _, id := range []string{"longbinary", "longchar"} {
+		for _, e := range peer.Zoo() {
+			if e.Name == "rowfmt2/"+id {
+				head := append(append([]byte{}, e.Bytes...), 0xD1, 0x00, 0x09, 0x3D, 0x00)
+				out = append(out, d{"ROW " + id + " of 4000000 bytes", head, 300, 1}, d{"ROW " + id + " of 4000000 bytes", head, 600, 3})
+			}
+		}
+	}
 	return out
 }()
 
